@@ -123,6 +123,23 @@ let () =
           | o :: _ -> "fail:" ^ o
           | [] -> "fail:no-observation" in
         Mlutil.print_model [want_tok; "multi=0"] verdict
+    | "wsbad", [_; burst] ->
+        (* refused upgrade requests leave nothing in the hub: the healthy listener (joined first, history irrelevant)
+           is entitled to every event of the burst and the hub comes to rest *)
+        let b = int_of_string burst in
+        let rec range a z = if a >= z then [] else a :: range (a + 1) z in
+        let want_tok = "T=" ^ String.concat ";" (List.map (fun i -> "s:" ^ Mlutil.hex (if i mod 3 = 0 then "b" else "a") ^ ":" ^ Mlutil.hex (string_of_int i)) (range 0 b)) in
+        let verdict = match outs with
+          | [r; t; res] ->
+              let all_refused = (match String.split_on_char '/' (String.sub r 8 (String.length r - 8)) with [x; y] -> x = y | _ -> false) in
+              if not all_refused then "fail:an-invalid-upgrade-request-was-accepted"
+              else if res <> "ok" then "fail:hub-blocked-with-no-full-open-listener(after-refused-upgrade-requests)"
+              else if t <> want_tok then "fail:healthy-listener-missed-events-after-refused-upgrade-requests"
+              else "ok"
+          | o :: _ -> "fail:" ^ o
+          | [] -> "fail:no-observation" in
+        let model_refused = match outs with r :: _ -> r | [] -> "refused=?" in
+        Mlutil.print_model [model_refused; want_tok; "ok"] verdict
     | "wslong", [_; seconds; gap] ->
         (* a healthy attached monitor: entitled to every event (history 0, joined first); the connection must be
            kept alive by the pings whatever the event traffic (writer_arms_pinned: one ping per TICK of a ticker) *)
